@@ -33,6 +33,7 @@ structure Event where
   pos : Nat
   att : Nat
   exe : Nat
+  seen : Option Outcome := none    -- for "fn" / "fb.fn": the last outcome the function observed on its execution
 deriving Repr, DecidableEq
 
 inductive FbKind | value (v : Int) | error (e : Err) deriving Repr
@@ -73,13 +74,18 @@ structure Run where
   execs : Nat := 0                 -- function invocations completed
   failed : List (Nat × Nat) := []  -- per position: the retry executor's failedAttempts
   exceeded : List Nat := []        -- positions whose retry executor has retriesExceeded set
+  last : Outcome := ⟨0, none⟩      -- `LastResult` / `LastError` of the execution (copy) the current layers run on
   log : List Event := []
 deriving Repr
 
 abbrev Layer := Run → Option (PR × Run)
 
 def Run.emit (r : Run) (name : String) (pos : Nat) : Run :=
-  { r with log := r.log ++ [⟨name, pos, r.attempts, r.execs⟩] }
+  { r with log := r.log ++ [⟨name, pos, r.attempts, r.execs, none⟩] }
+
+/-- an event of a user function (the wrapped function or a fallback function) together with the `LastResult`/`LastError` it saw -/
+def Run.emitSeen (r : Run) (name : String) (pos : Nat) (o : Outcome) : Run :=
+  { r with log := r.log ++ [⟨name, pos, r.attempts, r.execs, some o⟩] }
 
 def getFailed (r : Run) (pos : Nat) : Nat := ((r.failed.find? (·.1 == pos)).map (·.2)).getD 0
 def setFailed (r : Run) (pos n : Nat) : Run := { r with failed := (pos, n) :: r.failed.filter (·.1 != pos) }
@@ -89,6 +95,8 @@ def timeoutResult : PR := failureResult Err.timeout
 /-- the user function: pops the next scripted outcome (an exhausted script succeeds with the zero value). A blocking
 outcome is released by the enclosing Timeout's timer: listener, then `Cancel(timeoutResult)`. -/
 def base : Layer := fun r =>
+  -- the function observes the last recorded outcome of its execution
+  let r := r.emitSeen "fn" 0 r.last
   match r.script with
   | [] => some (fnResult 0 none, { r with inv := r.inv + 1, execs := r.execs + 1 })
   | it :: rest =>
@@ -111,7 +119,7 @@ def drainBreaker (r : Run) (id pos : Nat) : Run :=
   match r.w.breakers[id]? with
   | none => r
   | some (_, b) =>
-    let r := b.events.foldl (fun r ev => { r with log := r.log ++ [⟨breakerEventName ev, pos, 0, 0⟩] }) r
+    let r := b.events.foldl (fun r ev => { r with log := r.log ++ [⟨breakerEventName ev, pos, 0, 0, none⟩] }) r
     updBreaker r id (fun _ b => { b with events := [] })
 
 /-- `retrypolicy.executor.OnFailure` decision: (result, run) after a failure was classified -/
@@ -143,6 +151,7 @@ def retryLoop (pos : Nat) (m : Int) (retLast : Bool) (handle abort : List Cond) 
         if res2.done then some (res2, r)
         else
           -- RecordResult, delay, InitializeRetry, listeners
+          let r := { r with last := res2.outcome }
           let r := r.emit "rp.onRetryScheduled" pos
           let r := { r with attempts := r.attempts + 1, retries := r.retries + 1 }
           let r := r.emit "rp.onRetry" pos
@@ -169,7 +178,8 @@ def hedgeLoop (pos maxHedges : Nat) (cancelOn : List Cond) (inner : Layer) : Nat
     match r.script with
     | it :: _ =>
       if it.blocks then
-        -- the attempt blocks; its function has been entered
+        -- the attempt blocks; its function has been entered (and has observed the last recorded outcome)
+        let r := r.emitSeen "fn" 0 r.last
         let r := { r with script := r.script.drop 1, inv := r.inv + 1 }
         if k < maxHedges then hedgeLoop pos maxHedges cancelOn inner fuel (k + 1) done (blocked + 1) r
         else
@@ -260,17 +270,20 @@ def applyPolicy (fuel pos : Nat) : Policy → Layer → Layer
           let r := r.emit "fb.onFailure" pos
           if r.cancelled then some (timeoutResult, r) else
           let fo : Outcome := match k with | .value v => ⟨v, none⟩ | .error e => ⟨0, some e⟩
+          -- the fallback function sees the failed outcome as the execution's last result
+          let r := r.emitSeen "fb.fn" pos res.outcome
           let r := r.emit "fb.onFallbackExecuted" pos
           let ok := !isFailure h fo
           some (⟨fo.val, fo.err, true, ok, ok⟩, r)
         else some (res.withDone true true, r.emit "fb.onSuccess" pos)
   | .timeout, inner => fun r =>
-      let saved := (r.inTimeout, r.cancelled, r.timeoutPos)
+      -- the Timeout runs what is inside it on a cancellable copy of the execution: cancel scope and last outcome are local
+      let saved := (r.inTimeout, r.cancelled, r.timeoutPos, r.last)
       match inner { r with inTimeout := true, cancelled := false, timeoutPos := pos } with
       | none => none
       | some (res, r) =>
         let fired := r.cancelled
-        let r := { r with inTimeout := saved.1, cancelled := saved.2.1, timeoutPos := saved.2.2 }
+        let r := { r with inTimeout := saved.1, cancelled := saved.2.1, timeoutPos := saved.2.2.1, last := saved.2.2.2 }
         if fired then some (timeoutResult.withFailure, r)
         else if (match res.err with | some e => e.is Err.TIMEOUT | none => false) then some (res.withFailure, r)
         else some (res.withDone true true, r)
